@@ -312,6 +312,56 @@ class RiskReplay:
                 self.compare("oce:exp2", f"OCE(exponential utility, w={w}) is not w - mean u(x + w)", got, [float(fr(r["ocexp"][wi])) for r in rs2], rs2, 1e-12, 1e-12, {"w": w})
 
 
+def spellings(ctx: Ctx, recs: List[Dict[str, Any]]) -> None:
+    """The value of a criterion does not depend on how its arguments are spelt: integer vs float parameters, target as a Python
+    number / 0-dim tensor / full tensor / omitted-and-subtracted-by-the-caller, input contiguous or a transposed view, with or
+    without requires_grad."""
+    import pfhedge.nn as nn
+    import pfhedge.nn.functional as F
+    rs = [r for r in recs if len(r["x"]) >= 3][:24]
+    if not rs:
+        return
+    N = len(rs[0]["x"])
+    rs = [r for r in rs if len(r["x"]) == N]
+    X = torch.tensor([r["x"] for r in rs], dtype=torch.float64).t().contiguous()          # (N, M)
+    crits = [("EntropicRiskMeasure(a=1)", nn.EntropicRiskMeasure(1), nn.EntropicRiskMeasure(1.0)), ("EntropicRiskMeasure(a=2)", nn.EntropicRiskMeasure(2), nn.EntropicRiskMeasure(2.0)),
+             ("EntropicLoss(a=1)", nn.EntropicLoss(1), nn.EntropicLoss(1.0)), ("IsoelasticLoss(a=1)", nn.IsoelasticLoss(1), nn.IsoelasticLoss(1.0)),
+             ("ExpectedShortfall(p=1)", nn.ExpectedShortfall(1), nn.ExpectedShortfall(1.0)), ("ExpectedShortfall(p=0.5)", nn.ExpectedShortfall(0.5), nn.ExpectedShortfall(p=0.5)),
+             ("QuadraticCVaR(lam=2)", nn.QuadraticCVaR(2), nn.QuadraticCVaR(2.0))]
+    for name, a, b in crits:
+        Xp = X.abs() + 1.0 if name.startswith("Isoelastic") else X
+        try:
+            base = b(Xp)
+            variants = {"integer parameter": a(Xp),
+                        "target 0.0": b(Xp, 0.0), "target 0-dim": b(Xp + 1.5, torch.tensor(1.5, dtype=Xp.dtype)), "target full tensor": b(Xp + 1.5, torch.full_like(Xp, 1.5)),
+                        "target Python number": b(Xp + 1.5, 1.5), "target keyword": b(Xp + 0.25, target=0.25),
+                        "transposed view": b(Xp.t().contiguous().t()), "requires_grad": b(Xp.clone().requires_grad_()).detach()}
+        except Exception as e:
+            ctx.violation(f"spelling:{name.split('(')[0]}:raises", f"{name} raised {type(e).__name__} for an admissible spelling of its arguments", {"error": repr(e)[:200]})
+            continue
+        for label, got in variants.items():
+            ctx.count(n=1)
+            tol = 1e-9 if name.startswith("QuadraticCVaR") else 1e-12
+            if got.shape != base.shape or got.dtype != base.dtype or not bool(((got - base).abs() <= tol * (1 + base.abs())).all()):
+                ctx.violation(f"spelling:{name.split('(')[0]}", f"{name}: the value changes with the spelling of the arguments ({label})",
+                              {"variant": label, "base": base.flatten().tolist()[:4], "observed": got.flatten().tolist()[:4]})
+    # functional forms: integer parameters, p / a / lam given positionally or by keyword
+    try:
+        pairs = [("expected_shortfall", F.expected_shortfall(X, 0.5, dim=0), F.expected_shortfall(X, p=0.5, dim=0)),
+                 ("expected_shortfall p=1", F.expected_shortfall(X, 1, dim=0), F.expected_shortfall(X, 1.0, dim=0)),
+                 ("value_at_risk p=1", F.value_at_risk(X, 1, dim=0), F.value_at_risk(X, 1.0, dim=0)),
+                 ("entropic_risk_measure", F.entropic_risk_measure(X, 2), F.entropic_risk_measure(X, a=2.0)),
+                 ("exp_utility", F.exp_utility(X, 1), F.exp_utility(X, a=1.0)),
+                 ("quadratic_cvar", F.quadratic_cvar(X, 2, dim=0), F.quadratic_cvar(X, lam=2.0, dim=0))]
+    except Exception as e:
+        ctx.violation("spelling:functional:raises", f"a functional form raised {type(e).__name__} for an integer / keyword parameter", {"error": repr(e)[:200]})
+        pairs = []
+    for name, a, b in pairs:
+        ctx.count(n=1)
+        if a.shape != b.shape or a.dtype != b.dtype or not bool(((a - b).abs() <= 1e-9 * (1 + b.abs())).all()):
+            ctx.violation(f"spelling:functional:{name}", f"{name}: integer / positional and float / keyword parameters give different values", {"a": a.flatten().tolist()[:4], "b": b.flatten().tolist()[:4]})
+
+
 def selftest_values(ctx: Ctx, recs: List[Dict[str, Any]]) -> None:
     """Binding demonstration: corrupt one expected value; the replay must reject it."""
     probe = Ctx.__new__(Ctx)
